@@ -158,12 +158,14 @@ func runC19(p *Prog, r *Report) {
 			}
 		}
 	}
-	if fi := p.Func("pkgload.(*PackageLoader).localConfig"); fi != nil {
-		info := fi.Pkg.TypesInfo
+	if region := p.Region("pkgload.(*PackageLoader).localConfig"); region != nil {
+		fi := region[0]
 		ok := false
-		for _, c := range findCalls(info, fi.Decl, modPath+"/config/parse", "", "SettingLines") {
-			if docOrigin(p, fi, c.Args[0], 0) != nil {
-				ok = true
+		for _, f := range region {
+			for _, c := range findCalls(f.Pkg.TypesInfo, f.Decl, modPath+"/config/parse", "", "SettingLines") {
+				if docOrigin(p, f, c.Args[0], 0) != nil {
+					ok = true
+				}
 			}
 		}
 		if ok {
@@ -402,6 +404,22 @@ func c19R4(p *Prog, r *Report) {
 		}
 		return true
 	})
+	var scope ast.Node
+	if convBranch != nil {
+		scope = convBranch.Body
+		// the branch may delegate to a helper of parseGenDecl: then the checks live there
+		if len(convBranch.Body.List) == 1 {
+			if ret, ok := convBranch.Body.List[0].(*ast.ReturnStmt); ok && len(ret.Results) == 1 {
+				if call, ok := ast.Unparen(ret.Results[0]).(*ast.CallExpr); ok {
+					if f, ok := calleeObj(info, call).(*types.Func); ok {
+						if h := p.funcIdx[funcKey(f)]; h != nil && p.inRegion("comments.parseGenDecl", h) {
+							scope = h.Decl.Body
+						}
+					}
+				}
+			}
+		}
+	}
 	if convBranch == nil {
 		r.Bad("comments.parseGenDecl/converter marker branch", p.PosStr(gd.Decl.Pos()), "no branch testing the declaration doc for goverter:converter")
 	} else {
@@ -425,17 +443,17 @@ func c19R4(p *Prog, r *Report) {
 		}
 		for _, c := range checks {
 			site := "comments.parseGenDecl/converter marker: " + c.name
-			if hasEarlyError(gd, c.test, convBranch.Body) {
+			if hasEarlyError(gd, c.test, scope) {
 				r.OK(site, p.PosStr(convBranch.Pos()), "returns an error")
 			} else {
 				r.Bad(site, p.PosStr(convBranch.Pos()), "the converter marker on a wrong kind of declaration is no longer rejected ("+c.name+")")
 			}
 		}
 		// the checks precede parseInterface: the call must be the last statement group
-		calls := findCalls(info, convBranch.Body, modPath+"/comments", "", "parseInterface")
+		calls := findCalls(info, scope, modPath+"/comments", "", "parseInterface")
 		if len(calls) == 1 {
 			okOrder := true
-			ast.Inspect(convBranch.Body, func(n ast.Node) bool {
+			ast.Inspect(scope, func(n ast.Node) bool {
 				if ifs, ok := n.(*ast.IfStmt); ok && endsInExit(ifs.Body) && ifs.Pos() > calls[0].Pos() {
 					if tokTest("TYPE")(info, ifs.Cond) {
 						okOrder = false
